@@ -61,7 +61,7 @@ var Attrs = []string{
 	`href={ templ.URL(s) }`,
 }
 
-const header = "package p\n\nscript js() {\n\tconsole.log(1);\n}\n\ntempl c() {\n\t<i>{ children... }</i>\n}\n\n"
+const header = "package p\n\nimport (\n\t\"context\"\n\t\"io\"\n)\n\ntype card struct{ Title string }\n\nfunc (c card) Render(ctx context.Context, w io.Writer) error {\n\t_, err := io.WriteString(w, c.Title)\n\treturn err\n}\n\nfunc (c card) View() templ.Component {\n\treturn c\n}\n\nscript js() {\n\tconsole.log(1);\n}\n\ntempl c() {\n\t<i>{ children... }</i>\n}\n\n"
 
 func wrap(body string) string {
 	return header + "templ T(s string, b bool, xs []string, attrs templ.Attributes) {\n" + body + "\n}\n"
@@ -144,6 +144,10 @@ var Layouts = []Layout{
 	{Name: "call-args", Pre: "\t@c2(", Post: ")", Toks: []string{`s`, `,`, `b`}},
 	{Name: "call-args-comma", Pre: "\t@c2(", Post: ")", Toks: []string{`s`, `,`, `b`, `,`}},
 	{Name: "call-args-block", Pre: "\t@c2(", Post: ") {\n\t\tinner\n\t}", Toks: []string{`up(`, `s`, `)`, `,`, `b`}},
+	{Name: "legacy-literal", Pre: "\t{!", Post: "}", Toks: []string{`card`, `{`, `Title: "a"`, `}`}},
+	{Parts: true, Name: "call-literal", Pre: "\t@", Post: "", Toks: []string{`card`, `{`, `Title: "a"`, `}`}},
+	{Parts: true, Name: "call-method", Pre: "\t@", Post: "", Toks: []string{`card{Title: "a"}`, `.`, `View`, `(`, `)`}},
+	{Name: "legacy-method", Pre: "\t{!", Post: "}", Toks: []string{`card{Title: s}`, `.`, `View`, `(`, `)`}},
 	{Name: "raw-go", Pre: "\t{{", Post: "}}\n\t{ v }", Toks: []string{`v`, `:=`, `s`}},
 	{Name: "raw-go-two", Pre: "\t{{", Post: "}}\n\t{ v }", Toks: []string{`v`, `:=`, `up(`, `s`, `)`, `;`, `_ = v`}},
 	{Name: "if", Pre: "\tif ", Post: "{\n\t\tyes\n\t}", Toks: []string{`b`, `&&`, `len(xs) > 0`}},
